@@ -192,13 +192,9 @@ func mergeSameAlias(selections []*graphql.Selection) ([]*graphql.Selection, erro
 				isLastSelectionSetCopied = true
 			}
 
-			seenSelections := make(map[string]struct{}, len(selection.SelectionSet.Selections))
-			for _, s := range selection.SelectionSet.Selections {
-				if _, ok := seenSelections[s.Alias]; !ok {
-					seenSelections[s.Alias] = struct{}{}
-					last.SelectionSet.Selections = append(last.SelectionSet.Selections, s)
-				}
-			}
+			// Keep every sub-selection: selections with the same alias are merged
+			// (and checked against each other) when the sub-selections are flattened.
+			last.SelectionSet.Selections = append(last.SelectionSet.Selections, selection.SelectionSet.Selections...)
 			seenFragments := make(map[*graphql.Fragment]struct{}, len(selection.SelectionSet.Fragments))
 			for _, f := range selection.SelectionSet.Fragments {
 				if _, ok := seenFragments[f]; !ok {
